@@ -34,10 +34,10 @@ Definition lstep (x : ist) (t : nat) : ist :=
 Lemma lstep_erase x t : base (lstep x t) = fst (step (base x) t).
 Proof. unfold lstep. destruct (pc (thr (base x) t)); reflexivity. Qed.
 
-Definition iinit (progs : list (list nat)) : ist :=
+Definition iinit (progs : list (list op)) : ist :=
   {| base := init progs; alog := []; plog := []; hlog := []; pend := []; wk := None |}.
 
-Inductive ireach (progs : list (list nat)) : ist -> Prop :=
+Inductive ireach (progs : list (list op)) : ist -> Prop :=
 | ir_init : ireach progs (iinit progs)
 | ir_step x t : ireach progs x -> ireach progs (lstep x t).
 
@@ -56,10 +56,17 @@ Proof. induction sch as [|t r IH]; intros x R; cbn; auto. apply IH. constructor.
 (* Well-formed programs: the pushed items are distinct nodes, none of them
    NULL (0) or the fifo's initial stub (1).  "The work queue owns item after
    pushing": an item is not pushed a second time. *)
-Definition wf_progs (progs : list (list nat)) : Prop :=
+Definition wf_items (progs : list (list nat)) : Prop :=
   (forall t, NoDup (nth t progs [])) /\
   (forall t u a, t <> u -> In a (nth t progs []) -> ~ In a (nth u progs [])) /\
   (forall t a, In a (nth t progs []) -> 2 <= a).
+
+(* the items of the pushes, marked or not *)
+Definition items_of (progs : list (list op)) : list (list nat) := map (map item) progs.
+Definition wf_progs (progs : list (list op)) : Prop := wf_items (items_of progs).
+
+Lemma items_of_nth progs t : nth t (items_of progs) [] = map item (nth t progs []).
+Proof. unfold items_of. change (@nil nat) with (map item []). apply map_nth. Qed.
 
 Lemma nodup_app_inv {A} (l1 l2 : list A) :
   NoDup (l1 ++ l2) -> NoDup l1 /\ NoDup l2 /\ (forall a, In a l1 -> In a l2 -> False).
@@ -80,7 +87,7 @@ Proof.
 Qed.
 
 Lemma wf_of_nodup_concat progs :
-  NoDup (concat progs) -> (forall a, In a (concat progs) -> 2 <= a) -> wf_progs progs.
+  NoDup (concat progs) -> (forall a, In a (concat progs) -> 2 <= a) -> wf_items progs.
 Proof.
   intros ND GE. repeat split.
   - clear GE. revert ND. induction progs as [|p r IH]; intros ND t.
@@ -105,7 +112,7 @@ Definition cn (pl : list nat) (i : nat) : nat := nth i (stub :: pl) 0.
 
 (* items this thread has still to announce *)
 Definition todo (T : tst) : list nat :=
-  match pc T with PAdd => arg T :: prog T | _ => prog T end.
+  match pc T with PAdd => arg T :: map item (prog T) | _ => map item (prog T) end.
 
 (* between its add_and_fetch and the completion of its mpsc push *)
 Definition holdsb (T : tst) : bool :=
@@ -113,7 +120,7 @@ Definition holdsb (T : tst) : bool :=
 
 Definition in_get (p : pcT) : bool :=
   match p with
-  | GHead | GNext | GSetH | GData | GCopy | GOutR | GOutW
+  | GFfwd | GHead | GNext | GSetH | GData | GCopy | GOutR | GOutW
   | GCmpO | GCmpI | GOldR | GZero | GSub => true
   | _ => false
   end.
@@ -131,7 +138,7 @@ Definition wmid (hd : nat) (ic ov : Z) (al pl hl : list nat) : Prop :=
 (* what the designated worker knows, by pc *)
 Definition wpart (hd : nat) (ic ov : Z) (al pl hl : list nat) (T : tst) : Prop :=
   match pc T with
-  | PNext | PXchg | PLink | GHead | GCmpO | GCmpI | GOldR => wnorm hd ic ov al pl hl
+  | PNext | PXchg | PLink | GFfwd | GHead | GCmpO | GCmpI | GOldR => wnorm hd ic ov al pl hl
   | GNext => wnorm hd ic ov al pl hl /\ ph T = hd
   | GSetH => wnorm hd ic ov al pl hl /\ ph T = hd /\ pn T = cn pl (S (length hl)) /\ length hl < length pl
   | GData => wmid hd ic ov al pl hl /\ ph T = cn pl (length hl) /\ pn T = cn pl (S (length hl))
@@ -266,8 +273,9 @@ Proof.
   intros (W1 & W2 & W3).
   assert (Hf : forall t, flag (thr (init progs) t) = false) by (intros t; apply next_op_flag).
   assert (Hh : forall t, holdsb (thr (init progs) t) = false) by (intros t; apply next_op_holdsb).
-  assert (Ht : forall t, todo (thr (init progs) t) = nth t progs []).
-  { intros t. cbn [init thr]. unfold idle_thread. rewrite next_op_todo by (cbn; discriminate). reflexivity. }
+  assert (Ht : forall t, todo (thr (init progs) t) = nth t (items_of progs) []).
+  { intros t. cbn [init thr]. unfold idle_thread. rewrite next_op_todo by (cbn; discriminate).
+    rewrite items_of_nth. reflexivity. }
   constructor; cbn [length app]; auto.
   - intros t. rewrite Hf. split; discriminate.
   - intros t. apply next_op_pp.
@@ -343,12 +351,12 @@ Proof.
   assert (Fl : flag (thr s t) = false).
   { assert (P := Ipp t). unfold ppart in P. rewrite Hpc in P. exact P. }
   assert (Hw : w <> Some t). { intros E. apply (If t) in E. congruence. }
-  assert (Htd : todo (thr s t) = arg (thr s t) :: prog (thr s t)).
+  assert (Htd : todo (thr s t) = arg (thr s t) :: map item (prog (thr s t))).
   { unfold todo. rewrite Hpc. reflexivity. }
   assert (Ha : arg (thr s t) <> 0 /\ ~ In (arg (thr s t)) pe /\ ~ In (arg (thr s t)) (stub :: pl)).
   { apply (Itd t). rewrite Htd. left; reflexivity. }
   destruct Ha as (Ha0 & Hape & Hach).
-  assert (Hnd : NoDup (arg (thr s t) :: prog (thr s t))). { rewrite <- Htd. apply Itdnd. }
+  assert (Hnd : NoDup (arg (thr s t) :: map item (prog (thr s t)))). { rewrite <- Htd. apply Itdnd. }
   constructor; cbn [head tail inc outc next data thr]; try assumption.
   - intros u. thr_cases u t.
     + cbn [flag]. destruct (inc s =? 0)%Z; split; auto; try discriminate.
@@ -554,7 +562,8 @@ Proof.
   intros I Hpc. open_step Hpc. assert (HI := I). inv_split I.
   assert (P := Ipp t). unfold ppart in P. rewrite Hpc in P.
   destruct P as [[i (Hi & Pp & Pa)] Pnx].
-  set (T' := if flag (thr s t) then with_pc (thr s t) GHead else next_op (thr s t)).
+  set (T' := if flag (thr s t) then with_pc (thr s t) (if mk (thr s t) then GFfwd else GHead)
+             else next_op (thr s t)).
   assert (Hfl : flag T' = flag (thr s t)).
   { unfold T'. destruct (flag (thr s t)) eqn:F; [exact F|apply next_op_flag]. }
   assert (Hho : holdsb T' = false).
@@ -593,7 +602,7 @@ Qed.
 (* ---------- steps of the designated worker ---------- *)
 Lemma worker_facts s al pl hl pe w t :
   Inv s al pl hl pe w -> in_get (pc (thr s t)) = true ->
-  flag (thr s t) = true /\ w = Some t /\ holdsb (thr s t) = false /\ todo (thr s t) = prog (thr s t) /\
+  flag (thr s t) = true /\ w = Some t /\ holdsb (thr s t) = false /\ todo (thr s t) = map item (prog (thr s t)) /\
   (1 <= inc s)%Z /\ wpart (head s) (inc s) (outc s) al pl hl (thr s t).
 Proof.
   intros I G. assert (P := i_pp _ _ _ _ _ _ I t). unfold ppart in P.
